@@ -39,9 +39,9 @@ class ExprUnaryModel(ExprModel):
     def val(self):
         v = self.expr.val()
         if self.op == UnaryExprType.Not:
-            if self.expr.width() == 1:
+            from vsc.model.value_bool import ValueBool
+            if isinstance(v, ValueBool):
                 # Negation of a condition
-                from vsc.model.value_bool import ValueBool
                 return ValueBool(not bool(v))
             else:
                 from vsc.model.value_scalar import ValueScalar
